@@ -447,12 +447,13 @@ def mt2(model):
 
 
 def mt3(model):
-    r = RuleResult('MT3', 'every equation environment of the catalogue (list-of-macros.md: '
-                   'displaymath, equation, eqnarray, align, gather, ... and starred forms) is '
-                   'declared as EquEnv', floor=10)
+    r = RuleResult('MT3', 'every displayed-equation environment of LaTeX and amsmath (displaymath, '
+                   'equation, eqnarray, align, alignat, flalign, gather, multline and starred '
+                   'forms - names written down from the LaTeX / amsmath documentation, not from '
+                   'the repository) is declared as EquEnv', floor=10)
     want = {'displaymath', 'equation', 'eqnarray', 'eqnarray*', 'equation*', 'align', 'align*',
-            'alignat', 'alignat*', 'flalign', 'flalign*', 'gather', 'gather*', 'multiline',
-            'multiline*'}
+            'alignat', 'alignat*', 'flalign', 'flalign*', 'gather', 'gather*', 'multline',
+            'multline*'}
     seen = {}
     for ent in tables.registry(model):
         name = tables.literal(ent['name']) if ent['name'] is not None else None
@@ -461,8 +462,9 @@ def mt3(model):
     for w in sorted(want):
         ents = seen.get(w, [])
         if not ents:
-            r.fail(model.mod('parameters').tree, 'equation environment %s is not declared' % w,
-                   stmt='EquEnv ' + w)
+            r.fail(model.mod('parameters').tree, 'equation environment %s is not declared: its '
+                   'maths source is copied into the text' % w, stmt='EquEnv ' + w,
+                   witness='\\usepackage{amsmath} \\begin{%s} a = b. \\end{%s}' % (w, w))
         for e in ents:
             if e['kind'] == 'EquEnv':
                 r.ok(e['node'], '%s is an EquEnv' % w)
